@@ -69,7 +69,12 @@ RULE = ("history: generated component graph (points F/M/P/R, 1-3 implementing sp
         "budget registered on a datasource must be in force; predicates (c)/(d) use it) x grep helper condition "
         "(normal / cannot be started: OSError with one of 6 errnos from the context's check_output / killed without "
         "output: status 137,124,143,-9,-15 / 60-400 KB of filters in 1-1500 strings, around and above the "
-        "128 KiB one argument may have). Non-trivial content: >= 1 "
+        "128 KiB one argument may have) x bytes that are no UTF-8 put between the characters of 1-4 lines (1 case in 3: "
+        "Latin-1 letters, 0xff/0xfe/0xf5, truncated 2/3/4-byte sequences, stray continuation bytes, overlong form, "
+        "encoded surrogate; a kept line may come back surrogate-escaped, with the bytes ignored or replaced and is "
+        "judged by the raw bytes of the original line) x locale variables of the collecting process itself (1 in 4: "
+        "LC_ALL / LANG / LC_CTYPE / LANGUAGE = C.UTF-8, C.utf8, en_US.UTF-8, POSIX, C, de_DE.ISO-8859-1, empty). "
+        "Non-trivial content: >= 1 "
         "line dropped and >= 1 kept on some path and (a filter has a regex metacharacter or leading "
         "dash, or a matching line was dropped because of an exhausted budget).")
 ASSUMPTIONS = [
@@ -93,6 +98,10 @@ ASSUMPTIONS = [
     "what a datasource object yields, and which filters a look-up reports for it, while no SpecSet subclass "
     "has declared it as an implementation is not part of the statement: such look-ups / evaluations are made "
     "(for what they may leave behind) but nothing is asserted about their results",
+    "bytes of a file / command output that are no UTF-8: 'the original lines' are the byte lines; the statement does "
+    "not say how they become text, so a kept line may be the surrogate-escaped text (how the tree reads files), the "
+    "text with those bytes left out (how the tree decodes the output of commands and of the grep helper) or with "
+    "U+FFFD in their place; a line contains a filter when the filter's UTF-8 bytes occur in the line's bytes",
     "the file a provider's write() / the Hydration persister stores on a host IS content of the spec (it is "
     "what the archive will hold): it must satisfy the same predicates (a)-(d) whether or not a Cleaner is "
     "present and whether or not .content was looked at before",
@@ -101,8 +110,9 @@ EXCLUDED = [
     "INSIGHTS_FILTERS_ENABLED=False mode (design X)",
     "filters containing a newline (the grep pattern list is newline separated by construction)",
     "content characters on which str.splitlines()/universal newlines split but grep does not "
-    "(\\r \\x0b \\x0c \\x1c-\\x1e \\x85 \\u2028 \\u2029) and NUL (grep's binary-file heuristic): text "
-    "files only; not explored",
+    "(\\r \\x0b \\x0c \\x1c-\\x1e \\x85 \\u2028 \\u2029) and NUL (grep's binary-file heuristic; pinned finding "
+    "C07-host-nul-binary): not explored. Other bytes that are no UTF-8 ARE generated (RAW_POOL; no 0xc2 / 0xe2 lead "
+    "byte so that no excluded character can be formed)",
     "content containing the word 'password' (the always-on password obfuscator of the Cleaner "
     "rewrites such lines; obfuscation is C08/C09)",
     "registry points that are raw AND filterable (no spec in insights.specs declares that)",
@@ -939,10 +949,13 @@ def validate(path, orig, kept, budgets, exact):
     if not isinstance(kept, list) or not all(isinstance(l, str) for l in kept):
         raise Violation("%s: content is not a list of text lines: %r" % (path, kept))
     # (a) order-preserving sub-sequence (non-empty lines are unique because of their tags)
+    # a line with bytes that are no UTF-8 may come back in any of its renderings(); from here on it is judged as the
+    # original line it stands for (i.e. by the raw bytes of the original)
+    rend = [renderings(l) for l in orig] if any(_has_raw(l) for l in orig) else None
     pos = 0
     idx = []
     for k in kept:
-        while pos < len(orig) and orig[pos] != k:
+        while pos < len(orig) and (orig[pos] != k if rend is None else k not in rend[pos]):
             pos += 1
         if pos == len(orig):
             raise Violation("%s: output is not an order-preserving sub-sequence of the original lines: "
@@ -952,26 +965,41 @@ def validate(path, orig, kept, budgets, exact):
         idx.append(pos)
         pos += 1
     keptidx = set(idx)
+    if rend is None:
+        def poss(f, i):
+            return f in orig[i]
+    else:
+        kept = [orig[i] for i in idx]
+
+        def poss(f, i):
+            # A line "a<0xfc>b" does not hold the filter "ab", its rendering with the byte left out ("ab") does.  The
+            # statement does not say which of the two is "the line": such a line MAY count as matching (it may be kept,
+            # it may be the last matching line, it may use up a budget) but is not required to (unstated -> unasserted).
+            # f in orig[i] (the raw bytes hold the filter) implies that every rendering holds it.
+            return any(f in r for r in rend[i])
     # (b) every kept non-empty line contains a filter
-    for k in kept:
-        if k and not any(f in k for f in fset):
-            raise Violation("%s: kept line %r contains none of the filters %r" % (path, k, _abbr(allf)),
+    for i in idx:
+        if orig[i] and not any(poss(f, i) for f in fset):
+            raise Violation("%s: kept line %r contains none of the filters %r" % (path, orig[i], _abbr(allf)),
                             path=path, original=orig, output=kept)
     # (c) the last line matching each filter is kept
     for f in fset:
         m = [i for i, l in enumerate(orig) if f in l]
         if m and m[-1] not in keptidx:
+            mp = [i for i in range(m[-1] + 1, len(orig)) if poss(f, i)]
+            if mp and mp[-1] in keptidx:
+                continue            # (the last line that matches once undecodable bytes are left out is kept)
             raise Violation("%s: the last line matching filter %r (%r) was dropped" % (path, f, orig[m[-1]]),
                             path=path, original=orig, output=kept, filters=_abbr(allf), budgets=_abbr(budgets))
     # (d) a dropped matching line needs an exhausted budget
-    keptcount = dict((f, sum(1 for i in keptidx if f in orig[i])) for f in fset)
+    keptcount = dict((f, sum(1 for i in keptidx if poss(f, i))) for f in fset)
     dropped = 0
     for i, l in enumerate(orig):
         if i in keptidx or not l:
             continue
-        fs = [f for f in fset if f in l]
-        if not fs:
+        if not any(f in l for f in fset):
             continue
+        fs = [f for f in fset if poss(f, i)]
         dropped += 1
         if not any(budgets[f] <= keptcount[f] for f in fs):
             raise Violation(
@@ -1011,15 +1039,66 @@ def _run(dr, engine, comp, broker):
     return dr.run(graph, broker)
 
 
+# byte sequences that are not valid UTF-8, as they turn up in real log files and command output: Latin-1 / CP1252
+# letters (a name typed on an ISO-8859-1 terminal), 0xff / 0xfe, lead bytes of 2 / 3 / 4 byte sequences whose tail is
+# missing (a line cut in the middle of a character), stray continuation bytes, an overlong form, an encoded surrogate.
+# None of them contains - or can combine with a neighbour to - NUL, a line break or one of the excluded characters
+# (no 0xc2 / 0xe2 lead byte: NEL is c2 85, U+2028 is e2 80 a8).
+RAW_POOL = ("fc", "e9", "ff", "fe", "c3", "e697", "f09f", "a9", "80", "c0af", "eda080", "f5", "4dfc6c6c6572", "e4f6fc",
+            "df20", "b5")
+RAW_KIND = {"fc": "latin1", "e9": "latin1", "4dfc6c6c6572": "latin1", "e4f6fc": "latin1", "df20": "latin1",
+            "b5": "latin1", "ff": "never-valid-byte", "fe": "never-valid-byte", "f5": "never-valid-byte",
+            "c3": "truncated-sequence", "e697": "truncated-sequence", "f09f": "truncated-sequence",
+            "a9": "stray-continuation", "80": "stray-continuation", "c0af": "overlong", "eda080": "encoded-surrogate"}
+AMBIENT_VARS = ("LC_ALL", "LANG", "LC_CTYPE", "LANGUAGE")
+AMBIENT_VALS = ("C.UTF-8", "C.utf8", "en_US.UTF-8", "POSIX", "C", "de_DE.ISO-8859-1", "")
+
+
 def build_lines(case):
-    lines = []
-    for n, body in enumerate(case["lines"]):
-        lines.append("" if body is None else "#%d#%s" % (n, body))
-    text = "\n".join(lines) + ("\n" if case.get("eof_nl", True) else "")
-    orig = text.split("\n")
-    if orig[-1] == "":
-        orig.pop()
-    return text, orig
+    """(bytes of the file / command output, the original lines).
+
+    The lines are text (tag + body); `raw` = [{"l": line, "at": position, "hex": one of RAW_POOL}] puts byte sequences
+    that are not valid UTF-8 between two characters of a non-empty line (indices modulo what exists).  The original
+    lines are handed back as text in which every undecodable byte is a lone surrogate (errors="surrogateescape": what
+    the tree itself reads files with); that mapping is one-to-one, and because UTF-8 is self-synchronising a filter
+    (valid text) is a substring of such a line exactly when its bytes are a substring of the line's bytes."""
+    bodies = list(case["lines"])
+    real = [n for n, b in enumerate(bodies) if b is not None]
+    inj = {}
+    for r in case.get("raw") or []:
+        if r.get("hex") not in RAW_POOL:
+            raise HarnessError("unknown raw byte sequence %r" % (r.get("hex"),))
+        if real:
+            inj.setdefault(real[int(r.get("l", 0)) % len(real)], []).append(
+                (int(r.get("at", 0)), bytes.fromhex(r["hex"])))
+    blines = []
+    for n, body in enumerate(bodies):
+        if body is None:
+            blines.append(b"")
+            continue
+        chars = [ch.encode("utf-8") for ch in body]
+        for at, bs in inj.get(n, []):
+            chars.insert(at % (len(chars) + 1), bs)
+        blines.append(("#%d#" % n).encode("ascii") + b"".join(chars))
+    data = b"\n".join(blines) + (b"\n" if case.get("eof_nl", True) else b"")
+    borig = data.split(b"\n")
+    if borig[-1] == b"":
+        borig.pop()
+    return data, [l.decode("utf-8", "surrogateescape") for l in borig]
+
+
+def _has_raw(line):
+    return any(0xDC80 <= ord(ch) <= 0xDCFF for ch in line)
+
+
+def renderings(line):
+    """the texts in which one original line may be handed back.  The statement speaks of 'the original lines' and does
+    not say how bytes that are no UTF-8 are turned into text: the tree reads files with errors="surrogateescape" and
+    decodes the output of commands (incl. the grep helper) with errors="ignore"; errors="replace" is accepted too."""
+    if not _has_raw(line):
+        return (line,)
+    b = line.encode("utf-8", "surrogateescape")
+    return (line, b.decode("utf-8", "ignore"), b.decode("utf-8", "replace"))
 
 
 def check_content(case):
@@ -1039,8 +1118,12 @@ def check_content(case):
     hk = helper.get("k", "none")
     if hk not in HELPERS or (hk == "oserror" and helper.get("errno") not in ERRNOS):
         raise HarnessError("unknown helper condition %r" % (helper,))
-    text, orig = build_lines(case)
+    data, orig = build_lines(case)
+    text = data.decode("utf-8", "surrogateescape")
     special = [ch for ch in u"\r\x00\x0b\x0c\x1c\x1d\x1e\x85\u2028\u2029" if ch in text]
+    ambient = case.get("ambient") or {}
+    if ambient and (ambient.get("var") not in AMBIENT_VARS or ambient.get("val") not in AMBIENT_VALS):
+        raise HarnessError("unknown ambient locale setting %r" % (ambient,))
     if (special and not case.get("outside_domain_ok")) or "password" in text:
         # never generated; a pinned reproducer of a recorded finding may opt in explicitly
         raise HarnessError("content outside the explored domain (see EXCLUDED)")
@@ -1050,13 +1133,19 @@ def check_content(case):
     u = next(_uid)
     root = _new_sandbox()
     outroot = _new_sandbox()         # everything the check itself writes (outside of what (e) watches)
+    env_before = dict((k, os.environ.get(k)) for k in AMBIENT_VARS)
     try:
+        if ambient:
+            # the locale the collecting process itself was started in (a service unit, a cron job, an interactive
+            # shell); which lines a spec holds must not depend on it
+            os.environ[ambient["var"]] = ambient["val"]
+            labels.add("ambient-locale:%s=%s" % (ambient["var"], ambient["val"] or "<empty>"))
         with _Isolation():
             os.mkdir(os.path.join(root, "d"))
             rel = "d/log"
             fpath = os.path.join(root, rel)
             with open(fpath, "wb") as f:
-                f.write(text.encode("utf-8"))
+                f.write(data)
             # ---- world, built in stages ------------------------------------------------------
             # The order in which a real process gets there is not fixed: datasource objects exist (and may be
             # looked up / evaluated) before a SpecSet subclass declares them as implementations, wrappers
@@ -1270,10 +1359,10 @@ def check_content(case):
 
             def stored_lines(path):
                 with open(path, "rb") as f:
-                    data = f.read().decode("utf-8")
-                if data.endswith("\n"):
-                    data = data[:-1]          # a final newline does not make another line
-                return data.split("\n") if data else []
+                    sdata = f.read().decode("utf-8", "surrogateescape")
+                if sdata.endswith("\n"):
+                    sdata = sdata[:-1]          # a final newline does not make another line
+                return sdata.split("\n") if sdata else []
 
             def persisted_by_observer():
                 found = []
@@ -1448,10 +1537,25 @@ def check_content(case):
                 if dict(filters.FILTERS.get(c, {})) != raw_snap[k]:
                     raise Violation("applying filters changed the registrations of %s" % k)
     finally:
+        for k_, v_ in env_before.items():
+            if v_ is None:
+                os.environ.pop(k_, None)
+            else:
+                os.environ[k_] = v_
         shutil.rmtree(root, ignore_errors=True)
         shutil.rmtree(outroot, ignore_errors=True)
 
     allf = (set(hb) | set(ab)) - set(bulk)
+    if any(_has_raw(l) for l in orig):
+        labels.add("raw-bytes")
+        for r in case.get("raw") or []:
+            labels.add("raw-bytes:" + RAW_KIND[r["hex"]])
+        for side, bud in (("host", hb), ("archive", ab)):
+            if bud:
+                for l in orig:
+                    if _has_raw(l):
+                        labels.add("raw-bytes:in-%s-line-on-%s" % (
+                            "matching" if any(f in l for f in bud) else "non-matching", side))
     special = any(p.startswith("-") or any(ch in p for ch in ".*[]()|^$\\+?") for p in allf)
     if any(p.startswith("-") for p in allf):
         labels.add("filter:dash")
@@ -1580,9 +1684,17 @@ def _content_case(draw, tier):
                           "b": draw(st.sampled_from([MAXB, MAXB, 1, 3])), "before": draw(st.booleans())}
     else:
         case["helper"] = {"k": "none"}
+    # ---- bytes that are no UTF-8 inside the lines (1 case in 3), the locale of the collecting process (1 in 4) --------
+    # (the largest value switches a dimension on, so that a shrunk case carries it only when it is needed)
+    case["raw"] = draw(st.lists(_raw_inj, min_size=1, max_size=4)) if draw(st.integers(0, 2)) == 2 else []
+    case["ambient"] = draw(_ambient) if draw(st.integers(0, 3)) == 3 else None
     return case
 
 
+_raw_inj = st.fixed_dictionaries({"l": st.integers(0, 29), "at": st.integers(0, 40), "hex": st.sampled_from(RAW_POOL)})
+_ambient = st.fixed_dictionaries({"var": st.sampled_from(["LC_ALL", "LC_ALL", "LANG", "LANG", "LC_CTYPE", "LANGUAGE"]),
+                                  "val": st.sampled_from(["C.UTF-8", "C.UTF-8", "C.utf8", "en_US.UTF-8", "POSIX", "C",
+                                                          "de_DE.ISO-8859-1", ""])})
 _early_op = st.fixed_dictionaries({"do": st.sampled_from(["get", "eval", "eval"]),
                                    "on": st.sampled_from(["host", "host", "host", "arch", "arch", "point"]),
                                    "engine": st.sampled_from(["run", "run", "run_all"])})
@@ -1700,6 +1812,42 @@ def selftest():
     assert bad(["grep: oo: No such file or directory"], {"-foo": 1})  # (a) foreign line
     assert bad(["#0#a", "#2#ab", "#5#a"], {"a": MAXB}, exact=False) is False
     assert bad(["#0#a", "", "#2#ab", "#5#a"], {"a": MAXB}, exact=True)  # exact: empty line is not matching
+    # lines with bytes that are no UTF-8: judged by the raw bytes of the original, in any rendering of the line
+    rdata, rorig = build_lines({"lines": ["ab", None, "key", "kéy", "b"], "eof_nl": False,
+                                "raw": [{"l": 0, "at": 1, "hex": "fc"}, {"l": 1, "at": 1, "hex": "ff"},
+                                        {"l": 2, "at": 2, "hex": "c3"}, {"l": 6, "at": 4, "hex": "f09f"}]})
+    assert rdata == b"#0#a\xfcb\n\n#2#k\xffey\n#3#k\xc3\xa9\xc3y\xf0\x9f\n#4#b", rdata
+    assert rorig == ["#0#a\udcfcb", "", "#2#k\udcffey", u"#3#k\xe9\udcc3y\udcf0\udc9f", "#4#b"], rorig
+    assert renderings(rorig[0]) == ("#0#a\udcfcb", "#0#ab", u"#0#a\ufffdb") and renderings("#4#b") == ("#4#b",)
+    assert build_lines({"lines": ["a", None], "eof_nl": True}) == (b"#0#a\n\n", ["#0#a", ""])
+
+    def rbad(kept, budgets, exact=False):
+        try:
+            validate("selftest", rorig, kept, budgets, exact)
+        except Violation:
+            return True
+        return False
+    assert not rbad(["#0#ab", "#4#b"], {"b": MAXB}, exact=True)              # as the grep helper's output is decoded
+    assert not rbad(["#0#a\udcfcb", "#4#b"], {"b": MAXB}, exact=True)        # as a file is read
+    assert rbad(["#0#ab"], {"b": MAXB})                                      # (c) / (d): '#4#b' dropped
+    assert rbad(["#4#b"], {"b": MAXB})                                       # (d): the Latin-1 line dropped
+    assert rbad(["#4#b", "grep: /x/log: binary file matches"], {"b": MAXB})  # (a) foreign line
+    assert rbad(["#2#key"], {"key": MAXB}, exact=True)                       # by bytes 'k\xffey' holds no 'key' ...
+    assert not rbad(["#2#key"], {"key": MAXB})                               # ... with the byte left out it does: MAY
+    assert rbad(["#2#key"], {"kez": MAXB})                                   # (b)
+    assert not rbad([u"#3#k\xe9y"], {u"\xe9": MAXB}, exact=True)
+    # a line that holds a filter only once its undecodable bytes are left out MAY count as matching
+    _d, rorig = build_lines({"lines": ["ab", "::-fab"], "eof_nl": False, "raw": [
+        {"l": 0, "at": 0, "hex": "fc"}, {"l": 1, "at": 0, "hex": "fc"}, {"l": 1, "at": 6, "hex": "fc"}]})
+    assert rorig == ["#0#\udcfcab", "#1#\udcfc::-fa\udcfcb"], rorig
+    assert not rbad(["#1#::-fab"], {"ab": 1, "-f": 1})          # ... and use up the budget of 'ab'
+    assert not rbad(["#0#ab", "#1#::-fab"], {"ab": 1, "-f": 1}, exact=True)
+    assert not rbad(["#0#ab", "#1#::-fab"], {"ab": MAXB, "-f": 1}, exact=True)
+    assert rbad(["#1#::-fab"], {"ab": 2, "-f": 1})              # (d) budget 2, at most one kept line holds 'ab'
+    assert rbad(["#0#ab"], {"ab": 1, "-f": 1})                  # (c) last '-f' line dropped
+    assert rbad([], {"ab": 1, "-f": 1})
+    assert rbad(["#1#::-fab"], {"ab": 1}, exact=True)           # exact (grep on the bytes): line 1 does not hold 'ab'
+    assert not rbad(["#0#ab"], {"ab": 1}, exact=True) and not rbad(["#0#ab", "#1#::-fab"], {"ab": 1})
 
 
 SUBS = [
@@ -1755,6 +1903,15 @@ REGRESSIONS = [
         "lines": ["aa\x00bb key", "zz"], "filters": [{"p": "key", "b": 10000, "at": "point"}], "kind": "file",
         "eof_nl": True, "prelook": False, "interleave": False, "one_by_one": True, "outside_domain_ok": True},
         expect="known", finding="C07-host-nul-binary"),
+    # round 6: the grep helper's output is decoded with errors="ignore", so the line 'a<0xfc>b' arrives at the Cleaner's
+    # allow-list as '...ab' and uses up the budget of filter 'ab' there; accepted (how bytes become text is not stated)
+    Reg("ignored-bytes-make-a-line-match", "content", {
+        "lines": ["ab", "::-fab"], "filters": [{"p": "ab", "b": 1, "at": "point", "when": "late"},
+                                               {"p": "-f", "b": 1, "at": "point", "when": "late"}],
+        "raw": [{"at": 0, "hex": "fc", "l": 0}, {"at": 0, "hex": "fc", "l": 1}, {"at": 6, "hex": "fc", "l": 1}],
+        "kind": "file", "eof_nl": False, "prelook": False, "interleave": False, "one_by_one": False, "truncate": 0,
+        "early": [], "late_wrap": False, "persist": {"mode": "content-first", "cleaner": True, "what": "point"},
+        "engine": "run", "again": True, "helper": {"k": "none"}, "ambient": None}),
     Reg("no-filter-not-collected", "content", {
         "lines": ["a", "b"], "filters": [{"p": "a", "b": 1, "at": "arch"}], "kind": "first_of", "eof_nl": True,
         "prelook": True, "interleave": False, "one_by_one": True}),
